@@ -44,7 +44,7 @@ def cases(tier, seed):
         k += 1
         schemes = b["schemes"] if tier == "thorough" else [b["schemes"][k % 3]]
         for sch in schemes:
-            out.append(dict(scheme=sch, release=rel, death=death, numrec=numrec, nsteps=n, period=P, pvars=bool((k // 2 + k // 7) % 2), packed=bool((k // 3) % 2)))
+            out.append(dict(scheme=sch, release=rel, death=death, numrec=numrec, nsteps=n, period=P, pvars=bool((k // 2 + k // 7) % 2), packed=bool((k // 3) % 2), other_ref=bool((k // 5) % 2)))
     return out
 
 
@@ -132,8 +132,12 @@ def run_full(case, d):
 def run_restart(case, d, conf0, k, files):
     conf = {sec: (dict(v) if isinstance(v, dict) else v) for sec, v in conf0.items()}
     conf["output"] = dict(conf0["output"], filename=str(d / f"re{k}_{k + 1:03d}.nc"))
-    conf["warm_start"] = dict(filename=str(d / files[k]), variables=["age", "temp", "tag", "dose", "active"] + (["weight", "release_time"] if case["pvars"] else []))
+    # alive/active are mandatory state variables and are always taken from the file; 'active' is listed explicitly in half of the cases only
+    wv = ["age", "temp", "tag", "dose"] + (["active"] if case.get("packed") else [])
+    conf["warm_start"] = dict(filename=str(d / files[k]), variables=wv + (["weight", "release_time"] if case["pvars"] else []))
     conf["time"] = dict(conf0["time"])
+    if case.get("other_ref"):  # the restart configuration states another reference time than the original run
+        conf["time"]["reference"] = world.iso(S0 - 5 * 86400 - 3600)
     drive.run_model(conf, d)
 
 
@@ -223,6 +227,10 @@ def run_case(case):
                 fb = full["files"][k + 1 + j]
                 for v in ("weight", "release_time"):
                     a, b = np.asarray(fa["particle"][v], float), np.asarray(fb["particle"][v], float)
+                    if v == "release_time":  # decode to absolute time with each file's own units (the reference times may differ)
+                        ra = world.tosec(np.datetime64(fa["particle_units"][v].split("since")[1].strip().replace(" ", "T")))
+                        rb = world.tosec(np.datetime64(fb["particle_units"][v].split("since")[1].strip().replace(" ", "T")))
+                        a, b = a + ra, b + rb
                     if j == len(names) - 1 and len(a) > len(b) and rs["records"][-1]["time"] == float(S0 + n * DT):
                         a = a[: len(b)]  # the warm run's extra record at `stop` finalises its last file later: more particles, same prefix
                     if len(a) != len(b) or not np.all((np.abs(a - b) <= 1e-9 * np.maximum(1, np.abs(b))) | (np.isnan(a) & np.isnan(b))):
